@@ -169,6 +169,21 @@ theorem invert_spec_prime (p x : Nat) (d : Div) (tab : List Nat)
       absurd (Nat.le_of_dvd hx0 hdvd) (by omega))).symm
   exact invert_spec p x d tab hd ht hodd (by omega) hp28 hx0 hxp hcop
 
+/-- both constructors and `invert` together: nothing is assumed beyond the domain. -/
+theorem invert_total (p x : Nat) (hodd : p % 2 = 1) (hp3 : 3 ≤ p) (hp28 : p < 2 ^ 28)
+    (hx0 : 0 < x) (hxp : x < p) (hcop : Nat.Coprime x p) :
+    ∃ d tab r, Dividers.new p = some d ∧ Inverter.new p = some tab ∧
+      Inverter.invert tab d x = some r ∧ r < p ∧ x * r % p = 1 := by
+  have hpow : ∀ k, p ≠ 2 ^ k := by
+    intro k hk
+    cases k with
+    | zero => simp at hk; omega
+    | succ k => rw [hk, Nat.pow_succ] at hodd; omega
+  obtain ⟨d, hd, _⟩ := new_no_panic p (Or.inr ⟨hp3, by omega, hpow⟩)
+  obtain ⟨tab, ht, _, _⟩ := inverter_new_spec p hodd hp3 hp28
+  obtain ⟨r, hr⟩ := invert_spec p x d tab hd ht hodd hp3 hp28 hx0 hxp hcop
+  exact ⟨d, tab, r, hd, ht, hr⟩
+
 example : ((Dividers.new 7).bind fun d => (Inverter.new 7).bind fun tab => Inverter.invert tab d 3) = some 5 ∧
     ((Dividers.new 268435399).bind fun d => (Inverter.new 268435399).bind fun tab =>
       Inverter.invert tab d 2) = some 134217700 := by
@@ -232,6 +247,25 @@ theorem sqrt_mod_exact (B n p : Nat) (hp : p.Prime) (hB : (p - 1) * (p - 1) < B)
   cases res with
   | some r => exact Or.inl ⟨r, h, sqrt_mod_sound B n p r hp h⟩
   | none => exact Or.inr ⟨h, sqrt_mod_none B n p hp h⟩
+
+/-- the two instances the property quantifies over. `u64`: every prime below `2^24` (the
+factor-base range), every `n`. -/
+theorem sqrt_mod_u64_factor_base (n p : Nat) (hp : p.Prime) (hp24 : p < 2 ^ 24) :
+    (∃ r, sqrtMod (2 ^ 64) n p = some (some r) ∧ r < p ∧ r * r % p = n % p) ∨
+    (sqrtMod (2 ^ 64) n p = some none ∧ ¬ ∃ x, x * x % p = n % p) := by
+  apply sqrt_mod_exact _ n p hp _ (Or.inr hp24)
+  have h0 := hp.pos
+  calc (p - 1) * (p - 1) < 2 ^ 24 * 2 ^ 24 := Nat.mul_lt_mul'' (by omega) (by omega)
+    _ < 2 ^ 64 := by norm_num
+
+/-- `Uint` (1024 bits): every multiword prime `p ≡ 3 (mod 4)` below `2^512`, every `n`. -/
+theorem sqrt_mod_uint_3mod4 (n p : Nat) (hp : p.Prime) (h34 : p % 4 = 3) (hp512 : p < 2 ^ 512) :
+    (∃ r, sqrtMod (2 ^ 1024) n p = some (some r) ∧ r < p ∧ r * r % p = n % p) ∨
+    (sqrtMod (2 ^ 1024) n p = some none ∧ ¬ ∃ x, x * x % p = n % p) := by
+  apply sqrt_mod_exact _ n p hp _ (Or.inl h34)
+  have h0 := hp.pos
+  calc (p - 1) * (p - 1) < 2 ^ 512 * 2 ^ 512 := Nat.mul_lt_mul'' (by omega) (by omega)
+    _ = 2 ^ 1024 := by rw [← Nat.pow_add]
 
 /-- the documented assertion: a prime `p ≡ 1 (mod 2^24)` makes `sqrt_mod` panic on residues -/
 example : sqrtMod (2 ^ 64) 2 167772161 = none := by decide +kernel
